@@ -835,6 +835,7 @@ void qvector_reverse(qvector_t *vector) {
     void *tmp = malloc(vector->objsize);
     if (tmp == NULL) {
         errno = ENOMEM;
+        vector->unlock(vector);
         return;
     }
 
